@@ -97,7 +97,8 @@ impl<'h> FindMatchesImpl<'h> {
             } else {
                 // The iterator is exhausted.
                 // We should update the line offsets with the last character of the haystack.
-                self.record_line_offset(self.last_position + self.offset, '\0');
+                // A line that starts after a trailing newline starts at the end of the haystack.
+                self.record_line_offset(self.input.len(), '\0');
                 break;
             }
         }
